@@ -189,6 +189,12 @@ class Exporter:
             sv = [callee.string_value() if callee is not None and hasattr(callee, "string_value") else str(callee)]
         elif kind == "asm":
             sv, iv = tokenize_asm(op)
+        elif kind == "snaxalloc":
+            self.nsites = getattr(self, "nsites", 0) + 1
+            iv = [self.nsites]
+            ms = op.properties.get("memory_space")
+            al = op.properties.get("alignment")
+            sv = [ms.data if ms is not None and hasattr(ms, "data") else "", str(al.value.data) if al is not None and hasattr(al, "value") else "0"]
         elif kind == "kernel":
             sv = [name]
             if name == "kernel.rescale":
